@@ -6,6 +6,7 @@
 (3) PDFFiller._read_form_fields re-types every entry with the definition of the same name;
 (4) habutax.solve writes tax_year = args.year; fill_pdfs reads it and interprets the solution with that year's forms.
 """
+import os
 import time
 
 import z3
@@ -305,6 +306,12 @@ def fill_pdfs_unit():
                 if attr == 'getint':
                     it.ghost['getint'] = args
                     return SV('int', Y)
+                if attr == 'get' and len(args) == 2:
+                    # ConfigParser.get: the option's text; the fallback (when given) if the section or option is absent
+                    it.ghost.setdefault('get', []).append(list(args))
+                    if 'fallback' in kwargs and it.run.branch(fresh('option_absent', z3.BoolSort()), where=f'cfgget-absent@{node.lineno}'):
+                        return kwargs['fallback']
+                    return SV('str', z3.Function('cfg_get', STR, STR, STR)(sym.term(args[0]), sym.term(args[1])))
                 if attr == 'remove_section':
                     it.ghost['removed'] = args[0]
                     return None
@@ -355,8 +362,46 @@ def fill_pdfs_unit():
             obs.append(Ob(id=oid, backend='symexec+z3', function=fid, clause=label.replace('-', ' '), vc=f'{len(rs)} path(s)'))
         else:
             obs.append(Ob(id=oid, status=oblig.REFUTED, backend='symexec+z3', function=fid, clause='NOT: ' + label, solver_output=[r[2] for r in rs if not r[1]][0][:300],
-                          witness={'detail': [r[2] for r in rs if not r[1]][0][:300]}, replay={'reproduced': False}))
+                          witness={'detail': [r[2] for r in rs if not r[1]][0][:300]}, replay=native_fill_pdfs()))
     return obs
+
+
+def native_fill_pdfs():
+    """Concretisation: the real fill_pdfs on a stamped solution of every catalogued year, with a recording PDFFiller."""
+    import argparse
+    import tempfile
+    import habutax
+    from habutax import forms, pdf_filler
+    runs, bad = [], False
+    orig = pdf_filler.PDFFiller
+    try:
+        for y in sorted(forms.available_forms):
+            got = {}
+
+            class Rec(object):
+                def __init__(self, solution, available, out, flatten=True):
+                    got['forms'] = available
+                    got['sections'] = list(solution.sections())
+
+                def fill(self):
+                    got['filled'] = True
+            pdf_filler.PDFFiller = Rec
+            with tempfile.TemporaryDirectory() as d:
+                path = os.path.join(d, 'solution.ini')
+                with open(path, 'w') as f:
+                    f.write(f'[habutax]\ntax_year = {y}\nversion = x\n\n[w-2:0]\nbox_1 = 1.00\n')
+                try:
+                    habutax.fill_pdfs(argparse.Namespace(solution=path, output=os.path.join(d, 'o.pdf'), flatten=True))
+                    yr = [k for k, v in forms.available_forms.items() if v is got.get('forms')]
+                    ok = yr == [y] and 'habutax' not in got.get('sections', ['habutax']) and got.get('filled')
+                    runs.append({'stamped_year': y, 'interpreted_with_forms_of': yr, 'sections_passed_on': got.get('sections')})
+                except BaseException as ex:
+                    ok = False
+                    runs.append({'stamped_year': y, 'raised': f'{type(ex).__name__}: {str(ex)[:80]}'})
+                bad = bad or not ok
+    finally:
+        pdf_filler.PDFFiller = orig
+    return {'reproduced': bad, 'kind': 'fill_pdfs', 'runs': runs}
 
 
 def read_form_fields_unit():
